@@ -14,6 +14,8 @@
 (*         construction (the other quantities are admissible; only the two  *)
 (*         representatives of magnitude 2^200 are balanced by their         *)
 (*         opposite number, which is inadmissible as well);                 *)
+(*         the multi-asset map is written plainly or with a repeated key    *)
+(*         (encoding shape, see Shapes below);                              *)
 (*  pair   PairForge with exact magnitudes 1, 2^63, 2^64-1, 2^64;           *)
 (*  tx     every small transaction over the scaled domain TxOuts,           *)
 (*         where MaxQ is the image of 2^64-1; the driver replays it under   *)
@@ -92,7 +94,22 @@ SeqsUpTo(S, lo, hi) == UNION {[1..n -> S] : n \in lo..hi}
 None == "-"
 Blank == [kind |-> None, era |-> None, of |-> None, cls |-> None, form |-> None, rep |-> None,
           pos |-> 0, comp |-> None, mag |-> None, nform |-> None, pform |-> None, order |-> None,
-          ins |-> <<>>, outs |-> <<>>]
+          shape |-> "plain", ins |-> <<>>, outs |-> <<>>]
+
+(* encoding shape of the multi-asset map that carries the case quantity q.      *)
+(* A map may repeat a key: the policy id (outer map) or the asset name (inner   *)
+(* map).  Before Conway the ledger decodes such maps with last-wins semantics   *)
+(* (Map.fromList); Conway and later reject the duplicate.  Either way the       *)
+(* quantity an ACCEPTED output carries is the LAST occurrence, and that one     *)
+(* must be in range.  "same": both occurrences are q; "decoyfirst": an in-range *)
+(* decoy, then q; "decoylast": q, then the in-range decoy (q is discarded).     *)
+DupShapes == {"dupname:same", "dupname:decoyfirst", "dupname:decoylast",
+              "duppol:same", "duppol:decoyfirst", "duppol:decoylast"}
+Shapes == {"plain"} \cup DupShapes
+DecoyLast(sh) == sh \in {"dupname:decoylast", "duppol:decoylast"}
+\* which occurrence survives decoding: the case quantity or the decoy
+Effective(sh) == IF DecoyLast(sh) THEN "decoy" ELSE "case"
+DupLegal(e) == e \in {"mary", "alonzo", "babbage"}     \* protocol version < 9
 
 EraForms == UNION {{<<e, o>> : o \in OutForms(e)} : e \in Eras}
 Quantities == UNION {UNION {{<<k, f, r>> : r \in Reps(f, k)} : f \in {g \in Forms : Representable(g, k)}} : k \in Classes}
@@ -100,6 +117,10 @@ ClassSpace ==
     {[Blank EXCEPT !.kind = "class", !.era = ef[1], !.of = ef[2], !.cls = q[1], !.form = q[2], !.rep = q[3],
                    !.pos = p, !.comp = k] :
         ef \in EraForms, q \in Quantities, p \in {1, 2}, k \in {"none", "other"}}
+    \cup
+    {[Blank EXCEPT !.kind = "class", !.era = ef[1], !.of = ef[2], !.cls = q[1], !.form = q[2], !.rep = q[3],
+                   !.pos = p, !.comp = "none", !.shape = sh] :
+        ef \in EraForms, q \in Quantities, p \in {1, 2}, sh \in DupShapes}
 
 \* PairForge: +q in one output, -q in another, no input and no mint of the token
 Mags == {"one", "2p63", "max", "maxp1"}
@@ -109,6 +130,12 @@ PairSpace ==
                           !.order = d] :
                ef \in EraForms, nf \in {"nint", "big3"}, pf \in {g \in {"uint", "big2"} : PosFormOk(g, m)},
                d \in {"negfirst", "posfirst"}} : m \in Mags}
+    \cup
+    \* the -q output written with a repeated key whose last occurrence is -q
+    UNION {{[Blank EXCEPT !.kind = "pair", !.era = ef[1], !.of = ef[2], !.mag = m, !.nform = nf, !.pform = pf,
+                          !.order = d, !.shape = sh] :
+               ef \in EraForms, nf \in {"nint", "big3"}, pf \in {g \in {"uint", "big2"} : PosFormOk(g, m)},
+               d \in {"negfirst", "posfirst"}, sh \in {z \in DupShapes : ~DecoyLast(z)}} : m \in Mags}
 
 TxSpace == {[Blank EXCEPT !.kind = "tx", !.ins = i, !.outs = o] :
                i \in SeqsUpTo(1..MaxQ, 0, TxMaxIns), o \in SeqsUpTo(TxOuts, 1, TxMaxOuts)}
@@ -120,18 +147,25 @@ CaseSpace == ClassSpace \cup PairSpace \cup TxSpace
 (* class and pair transactions conserve value by construction, so only the *)
 (* range decides.                                                          *)
 Accept(x) ==
-    CASE x.kind = "class" -> (RangeChecked => Admissible(x.cls))
+    \* the surviving occurrence decides; the decoy is in range
+    CASE x.kind = "class" -> (RangeChecked => (Effective(x.shape) = "decoy" \/ Admissible(x.cls)))
       [] x.kind = "pair"  -> ~RangeChecked            \* the -q output is never admissible
       [] OTHER            -> AcceptTx(x)
 
 Why(x) ==
-    CASE x.kind = "class" -> IF Admissible(x.cls) THEN "ok" ELSE "range"
+    CASE x.kind = "class" -> IF Effective(x.shape) = "decoy" \/ Admissible(x.cls) THEN "ok" ELSE "range"
       [] x.kind = "pair"  -> "range"
       [] OTHER            -> WhyTx(x)
 
 \* cases whose acceptance the driver must observe, else the class is vacuous:
 \* the canonical encodings of the in-range boundary values
 Baseline(x) == x.kind = "class" /\ x.form = "uint" /\ x.cls \in {"one", "max"} /\ x.comp = "none"
+               /\ x.shape = "plain"
+\* a repeated key whose surviving quantity is in range must get through where the
+\* era accepts repeated keys at all: the driver demands one such acceptance per era
+\* and output form, otherwise the lenient decoding path was never exercised
+DupBaseline(x) == x.kind = "class" /\ x.shape # "plain" /\ DupLegal(x.era) /\ x.form = "uint"
+                  /\ x.cls \in {"one", "max"}
 
 VARIABLE c
 Init == c \in CaseSpace
@@ -142,7 +176,7 @@ Next == UNCHANGED c
 \* the property: nothing accepted carries a negative or oversized quantity
 Safety ==
     Accept(c) =>
-        CASE c.kind = "class" -> Admissible(c.cls)
+        CASE c.kind = "class" -> Effective(c.shape) = "decoy" \/ Admissible(c.cls)
           [] c.kind = "pair"  -> FALSE
           [] OTHER            -> AllInRange(c)
 \* its consequence: an accepted transaction creates no tokens
@@ -153,14 +187,20 @@ PairIsBalancedForgery == (c.kind = "tx" /\ PairShape(c)) => Balanced(c) /\ Creat
 \* the verdict of the class family is the range and nothing else
 AdmissibleIs == \A k \in Classes : Admissible(k) <=> k \in {"zero", "one", "max"}
 EveryClassReachable == \A k \in Classes : \E f \in Forms : Representable(f, k) /\ Reps(f, k) # {}
+\* last wins: a repeated key changes nothing unless the surviving occurrence is another quantity
+LastWins == (c.kind \in {"class", "pair"} /\ Effective(c.shape) = "case") =>
+               Accept(c) = Accept([c EXCEPT !.shape = "plain"])
+\* an out-of-range quantity is harmless only when it is the discarded occurrence
+DiscardedOnly == (c.kind = "class" /\ RangeChecked /\ Accept(c) /\ ~Admissible(c.cls)) => DecoyLast(c.shape)
 RepairedRejects == RangeChecked => (Accept(c) <=> Why(c) = "ok")
 
 ------------------------------------------------------------------------
 (* emission *)
 Row(x) == [kind |-> x.kind, era |-> x.era, of |-> x.of, cls |-> x.cls, form |-> x.form, rep |-> x.rep,
            pos |-> x.pos, comp |-> x.comp, mag |-> x.mag, nform |-> x.nform, pform |-> x.pform,
-           order |-> x.order, ins |-> x.ins, outs |-> x.outs,
-           accept |-> Accept(x), why |-> Why(x), baseline |-> Baseline(x)]
+           order |-> x.order, ins |-> x.ins, outs |-> x.outs, shape |-> x.shape,
+           eff |-> Effective(x.shape), duplegal |-> (x.kind # "tx" /\ DupLegal(x.era)),
+           accept |-> Accept(x), why |-> Why(x), baseline |-> Baseline(x), dupbaseline |-> DupBaseline(x)]
 
 ASSUME MaxQ \in {3, 5, 15, 17}            \* divisors of 2^64-1, so that the scaling is exact
 ASSUME TxOuts \subseteq (-MaxQ - 2)..(MaxQ + 2)
